@@ -6,13 +6,12 @@ C locale) and `SquidModel.Date.Calendar` (`gmtime` = the recursive calendar walk
 the RFC 9110 date grammars and the meaning of "the time a string denotes" are in `SquidModel.Date.Forms`.
 All statements are for every time / every string of the form, no bounds other than the ones in the property text.
 
-The second sentence of the property ("whenever Squid accepts a date string in IMF-fixdate, RFC 850 or asctime form,
-the time it returns is the one the string denotes") is FALSE of the code in two ways, both proved below:
-  * a day of the month that does not exist (31 Feb) is accepted and carried into the next month
-    (`nonexistent_day_counterexample`), so the `…_partial` theorems carry the hypothesis `dd ≤ monthLen …`;
-  * the two-digit year of an rfc850-date is put into the fixed window 1970..2069, not into the sliding window
-    RFC 9110 prescribes (`rfc850_window_counterexample`); `rfc850_fixed_window` states what the code does and
-    `rfc850_denoted_partial` has the agreement of the two windows as its hypothesis.
+Since /repo commit 524b9ab `tmSaneValues` rejects a day that does not exist in its month, so the second sentence of the
+property holds at full strength for IMF-fixdate and asctime-date (`imf_fixdate_denoted`, `asctime_denoted`; before that
+commit "Tue, 31 Feb 2026 00:00:00 GMT" was accepted as 3 March, now `nonexistent_day_rejected`).
+For rfc850-date it is still FALSE of the code (known finding, not fixed): the two-digit year is put into the fixed window
+1970..2069, not into the sliding window RFC 9110 prescribes (`rfc850_window_counterexample`); `rfc850_fixed_window`
+states what the code does and `rfc850_denoted_partial` has the agreement of the two windows as its hypothesis.
 -/
 import SquidModel.Date.ParseLemmas
 
@@ -31,7 +30,7 @@ theorem parse_format (t : Int) (h0 : 0 ≤ t) (h1 : t < tEnd) : parseRfc1123 (fo
   unfold formatRfc1123
   rw [strftime_shape _ (by omega) (by omega), strftime_mon_ok _ hv.1,
     parse_imf (strftime_wday_ok _ hw) hv.1 (by have := hv.2.2; omega) (by omega) (by omega) (by omega) (by omega)]
-  have hsane : saneFields (gmtime t).mday (gmtime t).hour (gmtime t).min (gmtime t).sec := by
+  have hsane : saneFields (isLeap (gmtime t).year) (gmtime t).mon (gmtime t).mday (gmtime t).hour (gmtime t).min (gmtime t).sec := by
     have := hv.2.1; have := hv.2.2
     unfold saneFields; omega
   rw [if_pos hsane]
@@ -58,7 +57,7 @@ theorem asctime_round_trip (t : Int) (h0 : 0 ≤ t) (h1 : t < tEnd) {w dayTok : 
   obtain ⟨hy0, hy1⟩ := gmtime_year_bounds t h0 h1
   obtain ⟨hv, hh, hmi, hs, _⟩ := gmtime_valid t
   have hml := monthLen_pos (isLeap (gmtime t).year) (gmtime t).mon
-  have hsane : saneFields (gmtime t).mday (gmtime t).hour (gmtime t).min (gmtime t).sec := by
+  have hsane : saneFields (isLeap (gmtime t).year) (gmtime t).mon (gmtime t).mday (gmtime t).hour (gmtime t).min (gmtime t).sec := by
     have := hv.2.1; have := hv.2.2
     unfold saneFields; omega
   rw [parse_asc hw hv.1 (by have := hv.2.2; omega) (by omega) (by omega) (by omega) (by omega) hday, if_pos hsane]
@@ -71,12 +70,12 @@ theorem rfc850_round_trip (t : Int) (h0 : 0 ≤ t) (h1 : t < 3155760000) {w : By
   obtain ⟨hy0, hy1⟩ := gmtime_year_window t h0 h1
   obtain ⟨hv, hh, hmi, hs, _⟩ := gmtime_valid t
   have hml := monthLen_pos (isLeap (gmtime t).year) (gmtime t).mon
-  have hsane : saneFields (gmtime t).mday (gmtime t).hour (gmtime t).min (gmtime t).sec := by
+  have hsane : saneFields (isLeap (gmtime t).year) (gmtime t).mon (gmtime t).mday (gmtime t).hour (gmtime t).min (gmtime t).sec := by
     have := hv.2.1; have := hv.2.2
     unfold saneFields; omega
   have hyr : squidYear ((gmtime t).year % 100) = (gmtime t).year := by
     unfold squidYear; split <;> omega
-  rw [parse_850 hw hv.1 (by have := hv.2.2; omega) (by omega) (by omega) (by omega) (by omega), if_pos hsane, hyr]
+  rw [parse_850 hw hv.1 (by have := hv.2.2; omega) (by omega) (by omega) (by omega) (by omega), hyr, if_pos hsane]
   exact timegm_gmtime t (by simp only [epochDays]; omega)
 
 /-- A string denotes at most one time. -/
@@ -94,31 +93,28 @@ theorem denotes_valid {yyyy m dd hh mm ss : Nat} {t : Int} (h : Denotes yyyy m d
   rw [e1, e2, e3, e4, e5, e6] at hv
   exact ⟨hv.1, hv.2.1, hv.2.2.1, hv.2.2.2.1⟩
 
-/-- **IMF-fixdate.** Whenever Squid accepts an IMF-fixdate whose day exists in its month, the time it returns is the
-one the string denotes. (Full statement, without `hday`: false, see `nonexistent_day_counterexample`.) -/
-theorem imf_fixdate_denoted_partial {s : Bytes} {yyyy m dd hh mm ss : Nat} (hs : IsImfFixdate s yyyy m dd hh mm ss)
-    (hacc : parseRfc1123 s ≠ -1) (hday : dd ≤ monthLen (isLeap yyyy) m) :
-    Denotes yyyy m dd hh mm ss (parseRfc1123 s) := by
+/-- **IMF-fixdate.** Whenever Squid accepts an IMF-fixdate, the time it returns is the one the string denotes. -/
+theorem imf_fixdate_denoted {s : Bytes} {yyyy m dd hh mm ss : Nat} (hs : IsImfFixdate s yyyy m dd hh mm ss)
+    (hacc : parseRfc1123 s ≠ -1) : Denotes yyyy m dd hh mm ss (parseRfc1123 s) := by
   obtain ⟨w, hw, hm, hdd, hy, hhh, hmm, hss, rfl⟩ := hs
   rw [parse_imf hw hm hdd hy hhh hmm hss] at hacc ⊢
-  by_cases hsane : saneFields dd hh mm ss
-  · rw [if_pos hsane]; exact denotes_timegm hm hsane hday
+  by_cases hsane : saneFields (isLeap yyyy) m dd hh mm ss
+  · rw [if_pos hsane]; exact denotes_timegm hm hsane
   · rw [if_neg hsane] at hacc; exact absurd rfl hacc
 
 /-- **asctime-date.** The same for the asctime form (with either spelling of a one-digit day). -/
-theorem asctime_denoted_partial {s : Bytes} {yyyy m dd hh mm ss : Nat} (hs : IsAsctimeDate s yyyy m dd hh mm ss)
-    (hacc : parseRfc1123 s ≠ -1) (hday : dd ≤ monthLen (isLeap yyyy) m) :
-    Denotes yyyy m dd hh mm ss (parseRfc1123 s) := by
+theorem asctime_denoted {s : Bytes} {yyyy m dd hh mm ss : Nat} (hs : IsAsctimeDate s yyyy m dd hh mm ss)
+    (hacc : parseRfc1123 s ≠ -1) : Denotes yyyy m dd hh mm ss (parseRfc1123 s) := by
   obtain ⟨w, dayTok, hw, hm, hdd, hy, hhh, hmm, hss, hdt, rfl⟩ := hs
   rw [parse_asc hw hm hdd hy hhh hmm hss hdt] at hacc ⊢
-  by_cases hsane : saneFields dd hh mm ss
-  · rw [if_pos hsane]; exact denotes_timegm hm hsane hday
+  by_cases hsane : saneFields (isLeap yyyy) m dd hh mm ss
+  · rw [if_pos hsane]; exact denotes_timegm hm hsane
   · rw [if_neg hsane] at hacc; exact absurd rfl hacc
 
-/-- **rfc850-date, what the code does.** Whenever Squid accepts an rfc850-date whose day exists in its month, it
-returns the time with the written fields in the year of 1970..2069 that ends in the two year digits. -/
+/-- **rfc850-date, what the code does.** Whenever Squid accepts an rfc850-date, it returns the time with the written
+fields in the year of 1970..2069 that ends in the two year digits. -/
 theorem rfc850_fixed_window {s : Bytes} {yy m dd hh mm ss : Nat} (hs : IsRfc850Date s yy m dd hh mm ss)
-    (hacc : parseRfc1123 s ≠ -1) (hday : dd ≤ monthLen (isLeap (squidYear yy)) m) :
+    (hacc : parseRfc1123 s ≠ -1) :
     Denotes (squidYear yy) m dd hh mm ss (parseRfc1123 s) ∧ squidYear yy % 100 = yy ∧
       1970 ≤ squidYear yy ∧ squidYear yy ≤ 2069 := by
   obtain ⟨w, hw, hm, hdd, hy, hhh, hmm, hss, rfl⟩ := hs
@@ -126,48 +122,49 @@ theorem rfc850_fixed_window {s : Bytes} {yy m dd hh mm ss : Nat} (hs : IsRfc850D
     unfold squidYear; split <;> omega
   refine ⟨?_, hyr⟩
   rw [parse_850 hw hm hdd hy hhh hmm hss] at hacc ⊢
-  by_cases hsane : saneFields dd hh mm ss
-  · rw [if_pos hsane]; exact denotes_timegm hm hsane hday
+  by_cases hsane : saneFields (isLeap (squidYear yy)) m dd hh mm ss
+  · rw [if_pos hsane]; exact denotes_timegm hm hsane
   · rw [if_neg hsane] at hacc; exact absurd rfl hacc
 
 /-- **rfc850-date, RFC 9110 meaning.** If, at the recipient's time `now`, the year RFC 9110 5.6.7 assigns to the two
 digits is the one of the fixed window, the accepted string is given the time it denotes.
 (Without `hwin`: false, see `rfc850_window_counterexample`.) -/
 theorem rfc850_denoted_partial {s : Bytes} {yy m dd hh mm ss : Nat} (now : Int) (hs : IsRfc850Date s yy m dd hh mm ss)
-    (hacc : parseRfc1123 s ≠ -1) (hday : dd ≤ monthLen (isLeap (squidYear yy)) m)
-    (hwin : Rfc850Year now yy (squidYear yy) m dd hh mm ss) :
+    (hacc : parseRfc1123 s ≠ -1) (hwin : Rfc850Year now yy (squidYear yy) m dd hh mm ss) :
     ∃ yyyy, Rfc850Year now yy yyyy m dd hh mm ss ∧ Denotes yyyy m dd hh mm ss (parseRfc1123 s) :=
-  ⟨squidYear yy, hwin, (rfc850_fixed_window hs hacc hday).1⟩
+  ⟨squidYear yy, hwin, (rfc850_fixed_window hs hacc).1⟩
 
-/-- Strings of the three forms whose time of day or day number is out of range (hour 24, minute 60, a leap second,
-day 00 or 32..99) are rejected. -/
+/-- Strings of the three forms whose time of day is out of range (hour 24, minute 60, a leap second) or whose day does
+not exist in the month (day 00, 31 April, 29 February of a common year; for rfc850 in the year of the fixed window) are rejected. -/
 theorem insane_fields_rejected {s : Bytes} {y m dd hh mm ss : Nat}
-    (hs : IsImfFixdate s y m dd hh mm ss ∨ IsAsctimeDate s y m dd hh mm ss ∨ IsRfc850Date s y m dd hh mm ss)
-    (hbad : ¬ saneFields dd hh mm ss) : parseRfc1123 s = -1 := by
-  rcases hs with hs | hs | hs
+    (hs : IsImfFixdate s y m dd hh mm ss ∨ IsAsctimeDate s y m dd hh mm ss)
+    (hbad : ¬ saneFields (isLeap y) m dd hh mm ss) : parseRfc1123 s = -1 := by
+  rcases hs with hs | hs
   · obtain ⟨w, hw, hm, hdd, hy, hhh, hmm, hss, rfl⟩ := hs
     rw [parse_imf hw hm hdd hy hhh hmm hss, if_neg hbad]
   · obtain ⟨w, dayTok, hw, hm, hdd, hy, hhh, hmm, hss, hdt, rfl⟩ := hs
     rw [parse_asc hw hm hdd hy hhh hmm hss hdt, if_neg hbad]
-  · obtain ⟨w, hw, hm, hdd, hy, hhh, hmm, hss, rfl⟩ := hs
-    rw [parse_850 hw hm hdd hy hhh hmm hss, if_neg hbad]
+
+theorem insane_fields_rejected_rfc850 {s : Bytes} {yy m dd hh mm ss : Nat} (hs : IsRfc850Date s yy m dd hh mm ss)
+    (hbad : ¬ saneFields (isLeap (squidYear yy)) m dd hh mm ss) : parseRfc1123 s = -1 := by
+  obtain ⟨w, hw, hm, hdd, hy, hhh, hmm, hss, rfl⟩ := hs
+  rw [parse_850 hw hm hdd hy hhh hmm hss, if_neg hbad]
 
 /-- `parse_date` looks at the first `copyN - 1 = 63` bytes only. -/
 theorem parse_reads_63_bytes (s : Bytes) : parseRfc1123 s = parseRfc1123 (s.take 63) := by
   unfold parseRfc1123 parseDate
   rw [copy_limit, List.take_take, Nat.min_self]
 
-/-! ### counterexamples to the unrestricted statements -/
+/-! ### the day that does not exist (accepted as 3 March before /repo 524b9ab) and the remaining counterexample -/
 
 /-- "Tue, 31 Feb 2026 00:00:00 GMT" -/
 def feb31 : Bytes := [84,117,101,44,32,51,49,32,70,101,98,32,50,48,50,54,32,48,48,58,48,48,58,48,48,32,71,77,84]
 
-/-- The string is an IMF-fixdate, no time at all has these calendar fields, and yet Squid accepts it (as 3 March). -/
-theorem nonexistent_day_counterexample :
-    IsImfFixdate feb31 2026 1 31 0 0 0 ∧ parseRfc1123 feb31 = 1772496000 ∧
-    fieldsOf 1772496000 = (2026, 2, 3, 0, 0, 0) ∧ ∀ t, ¬ Denotes 2026 1 31 0 0 0 t := by
+/-- The string is an IMF-fixdate, no time at all has these calendar fields, and Squid rejects it. -/
+theorem nonexistent_day_rejected :
+    IsImfFixdate feb31 2026 1 31 0 0 0 ∧ (∀ t, ¬ Denotes 2026 1 31 0 0 0 t) ∧ parseRfc1123 feb31 = -1 := by
   refine ⟨⟨[84,117,101], by decide, by decide, by decide, by decide, by decide, by decide, by decide, by decide⟩,
-    by decide +kernel, by decide +kernel, ?_⟩
+    ?_, by decide +kernel⟩
   intro t h
   have := (denotes_valid h).1
   revert this; decide
@@ -226,6 +223,12 @@ example : parseRfc1123 [83,117,110,44,32,48,54,32,78,111,118,32,49,57,57,52,32,5
   decide +kernel
 example : parseRfc1123 [83,117,110,44,32,48,54,32,78,111,118,32,49,57,57,52,32,48,56,58,52,57,58,51,55,32,85,84,67] = -1 := by
   decide +kernel
+/-- leap days: "Thu, 29 Feb 2024 12:00:00 GMT" is accepted, "Wed, 29 Feb 2023 …" and "Thu, 29 Feb 1900 …" are rejected,
+"Tue, 29 Feb 2000 …" is accepted -/
+example : parseRfc1123 [84,104,117,44,32,50,57,32,70,101,98,32,50,48,50,52,32,49,50,58,48,48,58,48,48,32,71,77,84] = 1709208000 := by decide +kernel
+example : parseRfc1123 [87,101,100,44,32,50,57,32,70,101,98,32,50,48,50,51,32,49,50,58,48,48,58,48,48,32,71,77,84] = -1 := by decide +kernel
+example : parseRfc1123 [84,104,117,44,32,50,57,32,70,101,98,32,49,57,48,48,32,49,50,58,48,48,58,48,48,32,71,77,84] = -1 := by decide +kernel
+example : parseRfc1123 [84,117,101,44,32,50,57,32,70,101,98,32,50,48,48,48,32,49,50,58,48,48,58,48,48,32,71,77,84] = 951825600 := by decide +kernel
 /-- `make_num` on a one-digit hour reads the colon as a digit: "x 1 Jan 2000 1:00:00" is 20:00:00 (outside the three forms) -/
 example : parseRfc1123 [120,32,49,32,74,97,110,32,50,48,48,48,32,49,58,48,48,58,48,48] = 946756800 := by decide +kernel
 
